@@ -56,7 +56,7 @@ def units_for(prop):
     res = []
     for u in unit_files():
         txt = open(u).read()   # the unit's own contracts; prelude items are proved wherever they are included
-        spec_lines = [l for l in txt.split('\n') if re.match(r'\s*(props|safety)\s*:', l) or re.match(r'\s*\[[A-Z0-9, ]+', l)]
+        spec_lines = [l for l in txt.split('\n') if re.match(r'\s*(props|safety)\s*:', l) or re.match(r'\s*\[[A-Z0-9, ]+', l) or l.strip().startswith('//@lemma')]
         if any(re.search(r'\b' + prop + r'\b', l) for l in spec_lines):
             res.append(u)
     # a contract assumed via //@use must be discharged in its home unit in the same run
